@@ -232,6 +232,24 @@ func c02cases(quick bool) []*BCase {
 			add("create/"+cr.id+"/scope="+sc, cfg, local)
 		}
 	}
+	// values that print alike but differ in type, all in one build (across services, fields, calls, decorators)
+	{
+		cfg := c02base(false)
+		look := []any{5, "5", true, "true", 2.5, "2.5", nil, "<nil>", "nil", 0, "0", false, "false", "", "%pInt%", 7, "7", uint64(math.MaxUint64), "18446744073709551615", -3, "-3"}
+		cfg.Services = append(cfg.Services,
+			Service{Name: "sut", Constructor: P("pk.New"), Args: look},
+			Service{Name: "sut2", Constructor: P("pk2.New"), Args: []any{"5", 5, "true", true}, Fields: []KV{{"F1", "2.5"}, {"F2", 2.5}, {"f3", "<nil>"}}, Calls: []Call{{Method: "Set1", Args: []any{"7", 7, nil, "0", 0}}}, Tags: []Tag{{Name: "dtag"}}},
+		)
+		cfg.Decorators = []Decorator{{Tag: "dtag", Decorator: "pk.Dec1", Args: []any{"false", false, "-3", -3}}}
+		cases = append(cases, &BCase{ID: "lookalike-literals", Cfg: cfg, Sessions: []BSession{{Ops: []ProbeOp{op("get", "sut"), op("get", "sut2")}}}})
+		rev := c02base(false)
+		var r []any
+		for i := len(look) - 1; i >= 0; i-- {
+			r = append(r, look[i])
+		}
+		rev.Services = append(rev.Services, Service{Name: "sut", Constructor: P("pk.New"), Args: r})
+		cases = append(cases, &BCase{ID: "lookalike-literals-reversed", Cfg: rev, Sessions: []BSession{{Ops: []ProbeOp{op("get", "sut")}}}})
+	}
 	// error paths: todo, failing constructor, dependency on a todo / failing service, failing decorator
 	errs := []struct {
 		id   string
